@@ -67,9 +67,27 @@ def oracle(case: dict) -> Outcome:
     cfg = EighEigenvectorConfig() if method == "eigh" else QRConfig(max_iterations=case["max_it"], tolerance=case["tol"])
     est = _estimate(case.get("estimate", "zero"), n, V, lam, case.get("eseed", 0), dt) if method == "qr" else None
     flag_diag = bool(case.get("flag_diag")) and diag_input
+    A0 = A.clone()
+    est0 = None if est is None else est.clone()
     ok, Q = call_sut(out, "C12.call", f"matrix_eigenvectors[{method}]", lambda: mf.matrix_eigenvectors(A, est, cfg, is_diagonal=flag_diag))
     if not ok:
         return out
+    # purity: inputs untouched; a second call returns the same value although the first result has been overwritten in place
+    # (results must not alias each other, a cached object, or the inputs)
+    if not torch.equal(A, A0) or (est is not None and not torch.equal(est, est0)):
+        out.fail("C12.purity.inputs", "matrix_eigenvectors modified its input in place")
+    if n > 1:
+        keep = Q.clone()
+        aliases_input = Q.data_ptr() == A.data_ptr() or (est is not None and Q.data_ptr() == est.data_ptr())
+        if not aliases_input:
+            Q.mul_(-3.0).add_(1.5)
+            if not torch.equal(A, A0) or (est is not None and not torch.equal(est, est0)):
+                out.fail("C12.purity.aliasing", "the returned basis shares memory with an input")
+            ok2, Q2 = call_sut(out, "C12.call", f"matrix_eigenvectors[{method}] (second call)", lambda: mf.matrix_eigenvectors(A, est, cfg, is_diagonal=flag_diag))
+            if ok2 and not torch.equal(Q2, keep):
+                out.fail("C12.purity.aliasing", "a second call returns a different basis after the first result was modified in place (results alias a shared object)",
+                         f"n={n} method={method} diagonal_flag={flag_diag}")
+        Q = keep
     if n == 1:
         if float(Q.reshape(-1)[0]) != 1.0:
             out.fail("C12.1x1", "1x1 input does not yield one")
